@@ -9,6 +9,8 @@ import GoHeader.Oracle.C02
 import GoHeader.Oracle.Store
 import GoHeader.Oracle.C11
 import GoHeader.Oracle.C10
+import GoHeader.Oracle.C15
+import GoHeader.Oracle.C16
 open GoHeader GoHeader.Oracle
 
 def evalLine (line : String) : Option Verdict :=
@@ -20,6 +22,8 @@ def evalLine (line : String) : Option Verdict :=
     | "C02" :: rest => some (evalC02 rest outs)
     | "C11" :: rest => some (evalC11 rest outs)
     | "C10" :: rest => some (evalC10 rest outs)
+    | "C15" :: rest => some (evalC15 rest outs)
+    | "C16" :: rest => some (evalC16 rest outs)
     | _ => some (.bad "unknown property tag")
 
 structure DAcc where
